@@ -1,0 +1,49 @@
+// Copyright 2021-present The Atlas Authors. All rights reserved.
+// This source code is licensed under the Apache 2.0 license found
+// in the LICENSE file in the root directory of this source tree.
+
+//go:build verif
+
+package migrate
+
+import (
+	"os"
+	"strconv"
+	"strings"
+	"sync"
+)
+
+var verifPoints = struct {
+	sync.Mutex
+	seen map[string]int
+}{seen: map[string]int{}}
+
+// verifPoint is a named crash point for the verification harness: the process
+// exits (as if killed) when VERIF_CRASH_AT=<name>:<n> names the n-th (1-based)
+// occurrence of this point. VERIF_CRASH_LOG, if set, gets one line per point.
+func verifPoint(name string) {
+	verifPoints.Lock()
+	verifPoints.seen[name]++
+	n := verifPoints.seen[name]
+	verifPoints.Unlock()
+	if p := os.Getenv("VERIF_CRASH_LOG"); p != "" {
+		if f, err := os.OpenFile(p, os.O_APPEND|os.O_CREATE|os.O_WRONLY, 0o644); err == nil {
+			f.WriteString(name + ":" + strconv.Itoa(n) + "\n")
+			f.Close()
+		}
+	}
+	at := os.Getenv("VERIF_CRASH_AT")
+	if at == "" {
+		return
+	}
+	i := strings.LastIndexByte(at, ':')
+	if i < 0 || at[:i] != name {
+		return
+	}
+	if k, err := strconv.Atoi(at[i+1:]); err == nil && k == n {
+		os.Exit(137)
+	}
+}
+
+// VerifPoint exposes verifPoint to other packages of the module.
+func VerifPoint(name string) { verifPoint(name) }
